@@ -651,7 +651,7 @@ def _tasks(tier, seed):
     if not th:
         for lo in (0x1F000, 0x20000, 0xE0000, 0x10F000):
             tasks.append(("task_names_codepoints", (lo, lo + 0x1000, 8)))
-    flen, heavy_len = (8, 5) if th else (6, 4)
+    flen, heavy_len = (8, 5) if th else (7, 4)
     for pre in strings(SIGMA, 2, 2):
         tasks.append(("task_framing", (b"b", pre, flen, heavy_len)))
     for pre in strings(SIGMA, 1):
@@ -703,7 +703,7 @@ def _domain(tier):
         "{a, SP, '+', '&', '=', '%%', ';', '#', e-acute, U+1F600, LF, NUL, '/', '?'} (as form and as query args), all pair "
         "lists of length<=3 over 3 keys (incl. empty) x 3 values (incl. empty), every code point %s as key and as "
         "value.%s Payloads that themselves contain a delimiter line of the boundary in use are skipped and counted."
-        % ("U+0000..U+10FFFF" if th else "of the BMP (+ 4 blocks of astral planes)", 8 if th else 6, 5 if th else 4,
+        % ("U+0000..U+10FFFF" if th else "of the BMP (+ 4 blocks of astral planes)", 8 if th else 7, 5 if th else 4,
            6 if th else 4, 3 if th else 2, "U+0000..U+10FFFF" if th else "of the BMP",
            " and 4800 seeded random part lists (random bytes <=300, CR/LF/dash/boundary atoms, 5 content types)" if th
            else "", "U+0000..U+10FFFF" if th else "of the BMP",
